@@ -5,6 +5,8 @@ B : for a corpus of memory/storage blocks, every linearization of the specificat
     dependences and with data flow, evaluated on sampled states (aliasing offsets included), yields the stack, memory and
     storage of the block itself (reference executor).
 """
+import itertools
+
 import z3
 
 from pyvc import sym
@@ -131,6 +133,32 @@ MEM_BLOCKS = [
 ]
 
 
+def generated_mem_blocks(tier):
+    """three (four in thorough) memory accesses with constant offsets around word boundaries and one stack-supplied offset"""
+    import random
+    offs = ["0", "10", "1f", "20", "28", "5", "14"]
+    out = []
+    kinds = ["MSTORE", "MSTORE8", "MLOAD"]
+    combos = []
+    for ks in itertools.product(kinds, repeat=3):
+        if sum(1 for k in ks if k != "MLOAD") < 2:
+            continue
+        for os_ in itertools.product(offs, repeat=3):
+            combos.append((ks, os_))
+    rnd = random.Random(5)
+    rnd.shuffle(combos)
+    combos = combos[:150] if tier == 'quick' else combos[:1500]
+    for ks, os_ in combos:
+        b = []
+        for k, o in zip(ks, os_):
+            b += ["PUSH " + o, k]
+        out.append(' '.join(b))
+    out += ["PUSH 1 SSTORE PUSH 2 SSTORE SSTORE", "PUSH 1 SSTORE SWAP1 SSTORE PUSH 1 SSTORE", "SWAP1 PUSH 2 SSTORE PUSH 1 SSTORE SSTORE",
+            "PUSH 0 MSTORE8 SWAP2 PUSH 0 MSTORE SWAP1 PUSH 28 MSTORE PUSH 10 MSTORE", "PUSH 0 MSTORE PUSH 0 MSTORE8", "PUSH 0 MSTORE8 PUSH 0 MSTORE",
+            "PUSH 20 MSTORE PUSH 40 MLOAD PUSH 20 MSTORE8", "DUP1 PUSH 0 MSTORE PUSH ff PUSH 1f MSTORE8 PUSH 0 MLOAD"]
+    return out
+
+
 class SpecDenotesBlock(NativeCase):
     prop = 'C02'
     name = "spec-denotes-block-under-every-linearization(bounded)"
@@ -144,6 +172,7 @@ class SpecDenotesBlock(NativeCase):
         n_states = 10 if tier == 'quick' else 40
         n_lin = 0
         blocks = list(MEM_BLOCKS) + [b for b in corpus.BASE_BLOCKS if any(x in b for x in ("MSTORE", "SSTORE", "MLOAD", "SLOAD", "KECCAK"))]
+        blocks += generated_mem_blocks(tier)
         for b in blocks:
             toks = corpus.tokens(b)
             items = evmexec.parse_plain(toks)
